@@ -224,7 +224,9 @@ def refuse_task(src, via_setter=False):
 # frequency axes
 
 
-def axis_task(sides):
+def axis_task(sides, after_set=False):
+    """after_set: the object was built with another sampling frequency fs0 and `obj.sampling = fs` was assigned afterwards (through
+    the real setter): the axis must follow the value the object now reports"""
     def run(tc):
         dom = tc.smt()
         I = tc.interp()
@@ -234,14 +236,22 @@ def axis_task(sides):
             I.assume(V.s_cmp(">=", N, 1))
             fs = dom.input_real("sampling")
             I.assume(V.s_cmp(">", fs, 0))
-            obj = spectrum_obj(I, NFFT=N, sides=sides, datatype="real", sampling=fs)
+            if after_set:
+                fs0 = dom.input_real("sampling0")
+                I.assume(V.s_cmp(">", fs0, 0))
+                Nd = dom.input_int("Ndata")
+                I.assume(V.s_cmp(">=", Nd, 1))
+                obj = spectrum_obj(I, NFFT=N, sides=sides, datatype="real", sampling=fs0, N=Nd)
+                I.setattr(obj, "sampling", fs)
+            else:
+                obj = spectrum_obj(I, NFFT=N, sides=sides, datatype="real", sampling=fs)
             I.st = dict(N=N, fs=fs)
             return I.call_qual("spectrum.psd.Spectrum.frequencies", obj, sides)
 
         def post(P):
             st = P.interp.st
             N, fs = st["N"], st["fs"]
-            hints = {"sides": sides}
+            hints = dict({"sides": sides}, **({"after_set": True} if after_set else {}))
             tc.native = ("axis", hints)
             if P.outcome != "return" or not isinstance(P.value, Arr):
                 P.fail("no-exception", "frequencies() failed", replay=("axis", hints))
@@ -250,7 +260,8 @@ def axis_task(sides):
             want = Arr(specs.len_sides(sides, N), fn=lambda i: specs.freq(sides, i, N, df), dtype="float")
             P.prove_arr_eq("axis", P.value, want, replay=("axis", hints))
         tc.run_paths(I, thunk, post)
-    return Task("frequencies.%s" % sides, run, functions=["spectrum.psd.Spectrum.frequencies", "spectrum.psd.Range.%s" % sides])
+    return Task("frequencies.%s%s" % (sides, ".after-sampling-assignment" if after_set else ""), run,
+                functions=["spectrum.psd.Spectrum.frequencies", "spectrum.psd.Range.%s" % sides] + (["spectrum.psd.Spectrum._setSampling"] if after_set else []))
 
 
 # ---------------------------------------------------------------------------------
